@@ -97,8 +97,8 @@ def run(ctx, scratch):
             all(s < nrow for s in source)
         cases.append(('sp', fam, args, expr, ('sp', nrow, edges, source, False) if plain else None))
 
-    def add_dag(fam, n, edges, order):
-        args = dict(m=mspec(n, n, edges, rng=rng), order=order)
+    def add_dag(fam, n, edges, order, order_dtype='int64'):
+        args = dict(m=mspec(n, n, edges, rng=rng), order=order, order_dtype=order_dtype)
         expr = '@Ok graph (get_dag %s %s)' % (clist(gen.rows_of(n, edges), lambda r: clist(r, cnat)), clist(order, cz))
         cases.append(('dag', fam, args, expr, None))
 
@@ -149,6 +149,12 @@ def run(ctx, scratch):
             add_sp('rnd_' + fam, n, n, E, source=S, fb=rng.random() < 0.2)
         order = [rng.randint(-2, 4) for _ in range(n)]
         add_dag('rnd_' + fam, n, E, order)
+        # a rank vector in a narrow / unsigned integer type (ranks computed elsewhere, stored compactly): the comparison of two ranks
+        # is a comparison of integers, whatever the storage (100 - (-100) does not fit int8, 3 - 200 does not fit uint8)
+        odt = rng.choice(['int8', 'int16', 'uint8', 'uint16', 'int32'])
+        lo, hi = {'int8': (-120, 120), 'int16': (-30000, 30000), 'uint8': (0, 250), 'uint16': (0, 65000), 'int32': (-2 ** 31 + 5, 2 ** 31 - 5)}[odt]
+        pool = [lo, hi, (lo + hi) // 2, -1 if lo < 0 else 1, 0, rng.randint(lo, hi), rng.randint(lo, hi)]
+        add_dag('rnd_order_%s_%s' % (odt, fam), n, E, [rng.choice(pool) for _ in range(n)], order_dtype=odt)
     for _ in range(60 if quick else 600):
         r, c, E = gen.random_biadj(rng, 6 if quick else 14, 6 if quick else 14)
         tr = rng.random() < 0.4
